@@ -133,8 +133,13 @@ func (w *world) checkBacked() {
 		}
 		return b
 	}
+	treasury := false // the token is also treasury of the contract: what it holds beyond its liabilities may be spent
 	chk := func(contract string, c types.Address, z types.ZenonTokenStandard, owed *big.Int) {
 		b := bal(c, z)
+		if w.bl != nil && w.bl.repro != nil && c == types.LiquidityContract && z == w.bl.repro.zts {
+			// reproducer of the known finding (liqtreasury.go): it judges this (contract, token) itself, under its own narrow key
+			return
+		}
 		out.Oracle(owed.Cmp(b) <= 0, "liabilities-exceed-balance", M{"contract": contract, "zts": z.String(), "owed": Big(owed), "balance": Big(b)})
 		// the induction step of "always holds at least what it owes": what the contract holds beyond its liabilities
 		// (genesis surplus, donations) never shrinks - an entry is booked only against a deposit of the same token and
@@ -145,7 +150,7 @@ func (w *world) checkBacked() {
 		}
 		key := contract + "/" + z.String()
 		cur := new(big.Int).Sub(b, owed)
-		if prev, ok := w.surplus[key]; ok {
+		if prev, ok := w.surplus[key]; ok && !treasury {
 			out.Oracle(cur.Cmp(prev) >= 0, "liability-booked-without-matching-deposit", M{"contract": contract, "zts": z.String(),
 				"surplus_before": Big(prev), "surplus_after": Big(cur), "owed": Big(owed), "balance": Big(b)})
 		}
@@ -244,6 +249,28 @@ func (w *world) checkBacked() {
 	}
 	chk("sentinel", types.SentinelContract, types.ZnnTokenStandard, oz)
 	chk("sentinel", types.SentinelContract, types.QsrTokenStandard, oq)
+	// liquidity: stake entries per token (a cancelled entry stays with amount 0 until the reward update removes it).  ZNN and
+	// QSR are also the contract's treasury (rewards minted to it, Fund / BurnZnn / additional rewards spend them): for
+	// them only "liabilities <= balance" is required, not that the surplus never shrinks
+	if w.bl != nil {
+		per = map[types.ZenonTokenStandard]*big.Int{}
+		for _, e := range w.liqEntries() {
+			if per[e.TokenStandard] == nil {
+				per[e.TokenStandard] = new(big.Int)
+			}
+			per[e.TokenStandard].Add(per[e.TokenStandard], e.Amount)
+		}
+		for _, z := range append([]types.ZenonTokenStandard{w.bl.lp, w.bl.tk}, w.tokens...) {
+			if per[z] == nil {
+				per[z] = new(big.Int)
+			}
+		}
+		for z, o := range per {
+			treasury = z == types.ZnnTokenStandard || z == types.QsrTokenStandard
+			chk("liquidity", types.LiquidityContract, z, o)
+		}
+		treasury = false
+	}
 }
 
 // ---------------------------------------------------------------- payout oracle
@@ -350,6 +377,8 @@ func (w *world) expectedRelease(c *contractDef, s *nom.AccountBlock) *release {
 			return nil
 		}
 		return &release{kind: "qsr", key: "", to: s.Address, pays: []*big.Int{new(big.Int).Set(d.Qsr)}, zts: []types.ZenonTokenStandard{types.QsrTokenStandard}, ok: true}
+	case c.Name == "liquidity" || c.Name == "bridge":
+		return w.expectedReleaseBL(c, m, s)
 	}
 	return nil
 }
@@ -366,20 +395,42 @@ func isReleaseMethod(c *contractDef, m string) bool {
 		return m == definition.RevokeMethodName || m == definition.WithdrawQsrMethodName
 	case "sentinel":
 		return m == definition.RevokeSentinelMethodName || m == definition.WithdrawQsrMethodName
+	case "liquidity":
+		return m == definition.CancelLiquidityStakeMethodName
+	case "bridge":
+		return m == definition.RedeemUnwrapMethodName
 	}
 	return false
+}
+
+// what a receive block pays out: descendant sends that carry value, and Mint calls to the token contract (the bridge
+// pays a redeem of an owned pair by having the token contract mint the amount to the recipient)
+type payout struct {
+	ToAddress     types.Address
+	TokenStandard types.ZenonTokenStandard
+	Amount        *big.Int
+}
+
+func payoutsOf(blk *nom.AccountBlock) []payout {
+	var paid []payout
+	for _, x := range blk.DescendantBlocks {
+		if x.Amount.Sign() > 0 {
+			paid = append(paid, payout{x.ToAddress, x.TokenStandard, x.Amount})
+		} else if x.ToAddress == types.TokenContract {
+			prm := new(definition.MintParam)
+			if definition.ABIToken.UnpackMethod(prm, definition.MintMethodName, x.Data) == nil && prm.Amount != nil {
+				paid = append(paid, payout{prm.ReceiveAddress, prm.TokenStandard, prm.Amount})
+			}
+		}
+	}
+	return paid
 }
 
 // the payouts of an APPLIED release call against what the property allows
 func (w *world) checkRelease(c *contractDef, s *nom.AccountBlock, r *release, blk *nom.AccountBlock, ma *nom.Momentum) {
 	m := methodOf(c, s.Data)
 	d := blockDetail(s)
-	var paid []*nom.AccountBlock
-	for _, x := range blk.DescendantBlocks {
-		if x.Amount.Sign() > 0 {
-			paid = append(paid, x)
-		}
-	}
+	paid := payoutsOf(blk)
 	if r == nil {
 		w.out.Oracle(len(paid) == 0, "payout-without-entry", d)
 		return
